@@ -242,12 +242,19 @@ def gen_specs(tier, seed):
         ["assign", "s", None, ["+", V("s"), C(1)], [["i", C(0), V("j")], ["j", C(0), C(2)]], True],
         ["assign", "s", None, ["+", V("s"), C(1)], [["i", C(0), V("i")]], True],
         ["assign", "arr", C(0), V("a"), [["i", V("j"), C(2)], ["j", C(0), V("i")]], True],
+        # attribute lookups (z.real, v.size) in every position an expression can take
+        ["assign", "a", None, ["attr:real", V("z")], [], True],
+        ["assign", "a", None, ["+", ["attr:imag", V("z")], V("b")], [], ["cmp", "<", ["attr:real", V("q")], C(0)]],
+        ["assign", "arr", ["attr:real", V("j")], V("b"), [], True],
+        ["assign", "arr", V("i"), V("i"), [["i", C(0), ["attr:size", V("v")]]], True],
+        ["call", ["a"], "<func>f", [["attr:real", V("z")]], {"k": ["attr:size", V("v")]}, True],
+        ["yield", ["attr:real", V("z")], "y", ["attr:real", V("<t>")], "final", True],
     ]
     ncur = len(specs)
     nrand = 600 if tier == "quick" else 6000
     g = exprdsl.Gen(rng, vars_num=["a", "b", "c", "d"], vars_bool=["<cond>c", "<cond>d"],
                     consts=(0, 1, 2, -1), funcs=FUNCS, arrays=("v", "w"), kwnames=("k", "m"),
-                    ops=["+", "*", "/", "**", "cmp", "not", "and", "or", "if", "min", "max", "call", "callkw", "sub"])
+                    ops=["+", "*", "/", "**", "cmp", "not", "and", "or", "if", "min", "max", "call", "callkw", "sub", "attr"])
     gi = exprdsl.Gen(rng, vars_num=["j", "k", "i"], consts=(0, 1, 2), funcs=(), ops=["+"])
     for _ in range(nrand):
         depth = rng.choice([1, 2, 2, 3])
